@@ -413,6 +413,7 @@ int main(int argc, char **argv) {
   go.scaleShift = (int)argi("scaleShift", 0);
   go.globalDomain = argi("globalDomain", 0);
   go.singleRowOnly = argi("singleRowOnly", 0);
+  go.unitRows = argi("unitRows", 0);
   go.zeroAreaMovable = argi("zeroAreaMovable", 0);
   go.utilLo = atof(args("utilLo", "0.05").c_str());
   go.utilHi = atof(args("utilHi", "1.3").c_str());
